@@ -787,11 +787,29 @@ func TestVerifC37Proxy(t *testing.T) {
 		"a topic that does not exist upstream (e.g. a name with a trailing ';') cannot be read and is never counted",
 		"queries are ASCII: the parser crash on length-changing runes (C35) would kill the proxy process too",
 		"violation classes that mention byte 512 are assigned by a counterfactual: the same query with its whitespace squeezed below 512 bytes, sent alone under the same ACL, is denied or reads no forbidden topic")
-	env := c37NewEnv(t)
-	defer env.close()
+	const workers = 4 // each with its own proxy listener, upstream server and recorder
+	n := r.N(400, 6000)
+	var wg sync.WaitGroup
+	for w := 0; w < workers; w++ {
+		env := c37NewEnv(t)
+		defer env.close()
+		wg.Add(1)
+		go func(w int, env *c37Env) {
+			defer wg.Done()
+			for si := w; si < n; si += workers {
+				c37Session(r, env, si)
+			}
+		}(w, env)
+	}
+	wg.Wait()
+	r.Floor("forwarded_and_read_topics", int64(n/4))
+	r.Floor("denied", int64(n/8))
+	r.Floor("queries_longer_than_512", int64(n/4))
+	r.Floor("shapes", 30)
+}
 
-	n := r.N(400, 8000)
-	for si := 0; si < n; si++ {
+func c37Session(r *verifkit.Run, env *c37Env, si int) {
+	{
 		rng := r.Rand(si)
 		aclIdx := si % len(c37ACLs)
 		acl := c37ACLs[aclIdx]
@@ -870,6 +888,15 @@ func TestVerifC37Proxy(t *testing.T) {
 			}
 			if len(o.Bad) > 0 {
 				cls := c37Class(q.Text, o.Bad)
+				if qi > 0 {
+					// is it the session's history (decision cache)? the identical text, alone in a new session
+					cf, problem := env.session(acl, 0, []c37Query{{Text: q.Text, Shape: "counterfactual"}})
+					if problem != "" || len(cf) != 1 {
+						r.Inconclusive(fmt.Sprintf("session %d: counterfactual session failed: %s", si, problem))
+					} else if len(cf[0].Fwd) == 0 || len(cf[0].Bad) == 0 {
+						cls = "cached_decision_reused_for_different_query"
+					}
+				}
 				if strings.Contains(cls, "byte_512") {
 					// does the length matter? the same statement, whitespace squeezed, alone in a new session
 					if sq := c37Squeeze(q.Text); len(sq) <= 512 {
@@ -890,8 +917,4 @@ func TestVerifC37Proxy(t *testing.T) {
 			}
 		}
 	}
-	r.Floor("forwarded_and_read_topics", int64(n/4))
-	r.Floor("denied", int64(n/8))
-	r.Floor("queries_longer_than_512", int64(n/4))
-	r.Floor("shapes", 30)
 }
